@@ -586,6 +586,7 @@ func (x *c26Inst) bfsKey() string {
 type c26Point struct {
 	cfg  *c26Cfg
 	hist []int
+	ref  *c26Ref
 }
 
 // c26RefStates: shortest call history for every reference state reachable
@@ -598,7 +599,7 @@ func c26RefStates(cfg *c26Cfg, depth int) []c26Point {
 	root := c26NewRef()
 	seen := map[string]bool{root.key(cfg): true}
 	frontier := []node{{r: root}}
-	out := []c26Point{{cfg: cfg}}
+	out := []c26Point{{cfg: cfg, ref: root}}
 	for d := 0; d < depth; d++ {
 		var next []node
 		for _, n := range frontier {
@@ -616,7 +617,7 @@ func c26RefStates(cfg *c26Cfg, depth int) []c26Point {
 				seen[k] = true
 				h := append(append([]int{}, n.hist...), e)
 				next = append(next, node{r: r, hist: h})
-				out = append(out, c26Point{cfg: cfg, hist: h})
+				out = append(out, c26Point{cfg: cfg, hist: h, ref: r})
 			}
 		}
 		frontier = next
@@ -655,8 +656,15 @@ func c26CountSeqs(cfg *c26Cfg, depth int) int64 {
 
 // ---- crash part ----
 
+// c26Arm: crash injector state of one snapshots directory: the first allow
+// commits pass, every later commit is refused.
+type c26Arm struct {
+	allow         int64
+	seen, refused atomic.Int64
+}
+
 var (
-	c26Armed    sync.Map // snapshots directory -> *atomic.Int64 (commits refused)
+	c26Armed    sync.Map // snapshots directory -> *c26Arm
 	c26ErrCrash = errors.New("verif c26: injected commit failure")
 )
 
@@ -665,8 +673,11 @@ func c26Hook(kind, dir string, writes int) error {
 		return nil
 	}
 	if v, ok := c26Armed.Load(dir); ok {
-		v.(*atomic.Int64).Add(1)
-		return c26ErrCrash
+		a := v.(*c26Arm)
+		if a.seen.Add(1) > a.allow {
+			a.refused.Add(1)
+			return c26ErrCrash
+		}
 	}
 	return nil
 }
@@ -679,20 +690,39 @@ func c26HistNames(all []*c26Cfg, cfg *c26Cfg, hist []int) []string {
 	return out
 }
 
-// c26CrashCase: history (committed), optionally every further call with a
-// failing commit, close, reopen, AggregateMintWork's resubmission loop.
-func c26CrashCase(c *verifmc.Check, f *c26Fix, all []*c26Cfg, pt c26Point, failing bool, pool *c26Pool, worker int, refused, resubmitted, attempts *atomic.Int64) {
-	mode := "reopen-after-commit"
-	if failing {
-		mode = "commit-fails"
+type c26CrashStats struct {
+	refused, attempts, resubmitted, singleCommit, splitCommit atomic.Int64
+}
+
+const (
+	c26ModeReopen = 0 // committed history, crash, restart
+	c26ModeRefuse = 1 // every enabled call attempted with its commit refused, crash, restart
+	c26ModeSplit  = 2 // + event: one call with only its FIRST commit allowed (crash between two commits of one call)
+)
+
+// c26CrashCase runs on the worker's on-disk ledger: history (committed), the
+// crash of the given mode, close, reopen, AggregateMintWork's resubmission loop.
+func c26CrashCase(c *verifmc.Check, f *c26Fix, all []*c26Cfg, pt c26Point, mode int, pool *c26Pool, worker int, st *c26CrashStats) {
+	modeName := []string{"reopen-after-commit", "commit-refused"}
+	var mname string
+	if mode >= c26ModeSplit {
+		cl := c26Calls[mode-c26ModeSplit]
+		class, ok := pt.ref.classify(cl.Round, pt.cfg.Rounds[cl.Round][:cl.K], pt.cfg.Credit[cl.Round])
+		if !ok || class == "stale-noop" {
+			return // never reaches a commit
+		}
+		mname = "crash-inside:" + c26EventName(all, mode-c26ModeSplit)
+	} else {
+		mname = modeName[mode]
 	}
 	var steps []string
 	report := func(key, desc string) {
-		c.Violation(key, desc, map[string]any{"mode": mode, "history": c26HistNames(all, pt.cfg, pt.hist), "then": steps})
+		c.Violation(key, desc, map[string]any{"mode": mname, "history": c26HistNames(all, pt.cfg, pt.hist), "then": steps})
 	}
 	x := &c26Inst{c: c, f: f, all: all, pool: pool, worker: worker}
 	x.setup(pt.cfg, "")
-	dir := filepath.Dir(x.L.Store.VerifSnapshotsDir())
+	sdir := x.L.Store.VerifSnapshotsDir()
+	dir := filepath.Dir(sdir)
 	for _, e := range pt.hist {
 		if !x.call(e, "crash", true, report) {
 			c.Require(false, "crash case: history event %s disabled in %s", c26EventName(all, e), pt.cfg.Name)
@@ -700,11 +730,12 @@ func c26CrashCase(c *verifmc.Check, f *c26Fix, all []*c26Cfg, pt c26Point, faili
 		}
 	}
 	x.oracle("crash", "the committed history", report)
-	if failing {
-		sdir := x.L.Store.VerifSnapshotsDir()
-		cnt := new(atomic.Int64)
+	predictable := true // reference offset / submitted set still describe the store
+	switch {
+	case mode == c26ModeRefuse:
+		arm := &c26Arm{}
 		before := x.dump()
-		c26Armed.Store(sdir, cnt)
+		c26Armed.Store(sdir, arm)
 		for e, cl := range c26Calls {
 			works := pt.cfg.Rounds[cl.Round][:cl.K:cl.K]
 			class, ok := x.ref.classify(cl.Round, works, pt.cfg.Credit[cl.Round])
@@ -712,20 +743,44 @@ func c26CrashCase(c *verifmc.Check, f *c26Fix, all []*c26Cfg, pt c26Point, faili
 				continue // panics before / never reaches a commit
 			}
 			var err error
-			n0 := cnt.Load()
+			n0 := arm.refused.Load()
 			p := verifmc.Catch(func() { err = x.L.Store.WriteRoundWork(f.P, cl.Round, works, pt.cfg.Credit[cl.Round]) })
 			steps = append(steps, "commit-refused:"+c26EventName(all, e))
-			attempts.Add(1)
-			c.Require(p == nil && errors.Is(err, c26ErrCrash) && cnt.Load() == n0+1, "crash case: commit of %s was not intercepted (panic %v err %v)", c26EventName(all, e), p, err)
+			st.attempts.Add(1)
+			c.Require(p == nil && errors.Is(err, c26ErrCrash) && arm.refused.Load() == n0+1, "crash case: commit of %s was not intercepted (panic %v err %v)", c26EventName(all, e), p, err)
 			if x.dump() != before {
 				report("crash:failed-commit-visible", fmt.Sprintf("%s: WriteRoundWork %s returned %v but changed the work records", pt.cfg.Name, c26EventName(all, e), err))
 			}
 		}
-		refused.Add(cnt.Load())
+		st.refused.Add(arm.refused.Load())
 		x.oracle("crash", "refused commits", report)
 		_ = x.L.Store.Close()
 		c26Armed.Delete(sdir)
-	} else {
+	case mode >= c26ModeSplit:
+		e := mode - c26ModeSplit
+		cl := c26Calls[e]
+		works := pt.cfg.Rounds[cl.Round][:cl.K:cl.K]
+		arm := &c26Arm{allow: 1}
+		c26Armed.Store(sdir, arm)
+		var err error
+		p := verifmc.Catch(func() { err = x.L.Store.WriteRoundWork(f.P, cl.Round, works, pt.cfg.Credit[cl.Round]) })
+		if arm.refused.Load() == 0 {
+			// the call is a single transaction: no crash point inside it
+			c26Armed.Delete(sdir)
+			c.Require(p == nil && err == nil && arm.seen.Load() <= 1, "crash case: call %s with one commit allowed: panic %v err %v commits %d", c26EventName(all, e), p, err, arm.seen.Load())
+			x.ref.apply(cl.Round, works, pt.cfg.Credit[cl.Round])
+			x.oracle("crash", c26EventName(all, e), report)
+			st.singleCommit.Add(1)
+			c.Eval(1)
+			c.Outcome("crash-case:call-is-one-transaction")
+			return
+		}
+		steps = append(steps, fmt.Sprintf("%s: commit 1 passed, commit 2 refused (%v)", c26EventName(all, e), err))
+		st.splitCommit.Add(1)
+		predictable = false
+		_ = x.L.Store.Close()
+		c26Armed.Delete(sdir)
+	default:
 		_ = x.L.Store.Close()
 	}
 	// restart
@@ -735,38 +790,60 @@ func c26CrashCase(c *verifmc.Check, f *c26Fix, all []*c26Cfg, pt c26Point, faili
 	}
 	x.L.Store = store // the pooled ledger continues on the reopened store
 	steps = append(steps, "reopen")
-	x.oracle("crash", "reopen", report)
 	off, err := store.ReadWorkOffset(f.P)
-	c.Require(err == nil && off == x.ref.Off, "offset after reopen is %d (%v), reference %d", off, err, x.ref.Off)
+	if predictable {
+		x.oracle("crash", "reopen", report)
+		c.Require(err == nil && off == x.ref.Off, "offset after reopen is %d (%v), reference %d", off, err, x.ref.Off)
+	}
 	for round := off; round <= 3; round++ {
 		works, err := store.ReadSnapshotWorksForNodeRound(f.P, round)
 		c.Require(err == nil && c26SameWorks(works, pt.cfg.Rounds[round]), "snapshot works of round %d read back differently after reopen (%d, %v)", round, len(works), err)
 		credit := pt.cfg.Credit[round]
-		class, ok := x.ref.classify(round, works, credit)
 		name := fmt.Sprintf("resubmit:round%d[:%d]", round, len(works))
-		if !ok {
-			// the kernel would die here as well (two days in one credited batch)
-			c.Outcome("restart-blocked:" + class)
-			break
-		}
-		if round == off && x.ref.HasRec && len(x.ref.Seen) > 0 {
-			resubmitted.Add(1)
+		class := "after-split-call"
+		if predictable {
+			var ok bool
+			class, ok = x.ref.classify(round, works, credit)
+			if !ok {
+				// the kernel would die here as well (two days in one credited batch)
+				c.Outcome("restart-blocked:" + class)
+				break
+			}
+			if round == off && x.ref.HasRec && len(x.ref.Seen) > 0 {
+				st.resubmitted.Add(1)
+			}
 		}
 		steps = append(steps, name)
 		var werr error
 		p, site := verifmc.CatchSite(func() { werr = store.WriteRoundWork(f.P, round, works, credit) })
+		if p != nil && !predictable && strings.HasPrefix(c26Plans[pt.cfg.Plan].Name, "forcedStraddle") {
+			c.Outcome("restart-blocked:after-split-call")
+			return
+		}
 		if p != nil || werr != nil {
 			report("crash:resubmission-failed:"+class, fmt.Sprintf("%s: %s after restart: panic %v at %s, error %v", pt.cfg.Name, name, p, site, werr))
-			break
+			return
 		}
-		x.ref.apply(round, works, credit)
-		c.Outcome("restart:" + class)
-		x.oracle("crash", name, report)
+		if predictable {
+			x.ref.apply(round, works, credit)
+			c.Outcome("restart:" + class)
+			x.oracle("crash", name, report)
+		} else if credit {
+			// set semantics only: everything resubmitted to a credited round counts once
+			for _, w := range works {
+				if len(w.Signers) > 0 {
+					x.ref.Credited[w.Hash] = w
+				}
+			}
+		}
+	}
+	if !predictable {
+		x.oracle("crash", "the restart that followed a crash between two commits of one call", report)
 	}
 	c.Eval(1)
 	c.AddTraces(1)
-	c.Outcome("crash-case:" + mode)
-	c.Distinct(fmt.Sprintf("crash|%s|%s|%v", pt.cfg.Name, mode, pt.hist))
+	c.Outcome("crash-case:" + strings.SplitN(mname, ":", 2)[0])
+	c.Distinct(fmt.Sprintf("crash|%s|%s|%v", pt.cfg.Name, mname, pt.hist))
 }
 
 // ---- test ----
@@ -779,7 +856,7 @@ func TestMC_C26(t *testing.T) {
 		pprof.StartCPUProfile(fh)
 		defer pprof.StopCPUProfile()
 	}
-	c.SetRule("BFS with state deduplication over all histories [fixture, call, call, ...]: fixture = (day/credit plan, signer layout) of one proposer P, three other signers and rounds 1..3 of three snapshots each around a day boundary, plus the two signer-less genesis snapshots of round 0; call = WriteRoundWork(P, round, first k snapshots of the round, credit[round]) for round 0..3, k 0..3. Calls that hit a panic of the function itself (round > offset+1, shrinking set, two days in one credited fresh batch) are executed, must panic and are not transitions; stale calls (round < offset) are transitions. State = fixture + reference (offset, submitted set, credited set) + digest of all WORK* records. Oracle in every state: ListNodeWorks(P,A,B,C,bystander) on 5 days = counters derived from the SET of snapshots handed to a non-stale credited call. Crash part: for every reference state reachable with <= n calls, on an on-disk ledger: (a) close and reopen, (b) every enabled call attempted with its commit refused through badger.VerifHook, then close and reopen; then the AggregateMintWork loop (ReadWorkOffset, ReadSnapshotWorksForNodeRound, WriteRoundWork for offset..3) with the oracle after every step")
+	c.SetRule("BFS with state deduplication over all histories [fixture, call, call, ...]: fixture = (day/credit plan, signer layout) of one proposer P, three other signers and rounds 1..3 of three snapshots each around a day boundary, plus the two signer-less genesis snapshots of round 0; call = WriteRoundWork(P, round, first k snapshots of the round, credit[round]) for round 0..3, k 0..3. Calls that hit a panic of the function itself (round > offset+1, shrinking set, two days in one credited fresh batch) are executed, must panic and are not transitions; stale calls (round < offset) are transitions. State = fixture + reference (offset, submitted set, credited set) + digest of all WORK* records. Oracle in every state: ListNodeWorks(P,A,B,C,bystander) on 5 days = counters derived from the SET of snapshots handed to a non-stale credited call. Crash part: for every reference state reachable with <= n calls, on an on-disk ledger: (a) close and reopen, (b) every enabled call attempted with its commit refused through badger.VerifHook, then close and reopen, (c) per enabled call: only its first commit allowed (a crash point inside the call exists only if it is not one transaction); then the AggregateMintWork loop (ReadWorkOffset, ReadSnapshotWorksForNodeRound, WriteRoundWork for offset..3) with the oracle after every step")
 	c.Assume("credit is fixed per round (kernel rule day(first(r)) == day(first(r+1)), or always true as in the mainnet fork-batch exception); every non-genesis snapshot is signed by its proposer; snapshot timestamps within a chain are distinct; a refused Badger commit leaves no trace (checked) and a closed+reopened on-disk store stands for a crashed process (Badger durability itself is trusted); dedup key contains every record WriteRoundWork reads")
 
 	f := c26NewFix(c)
@@ -873,20 +950,24 @@ func TestMC_C26(t *testing.T) {
 	}
 	c.Set("crash_fixtures", len(ccfgs))
 	c.Set("crash_points", len(points))
-	var refused, resubmitted, attempts atomic.Int64
+	var st c26CrashStats
+	nm := c26ModeSplit + len(c26Calls)
 	dpool := &c26Pool{c: c, base: filepath.Join(scratch, "c26-crash"), slots: map[int]*c26Slot{}}
 	tc := time.Now()
-	c.ParallelN(2*len(points), "crash cases", func(w, i int) {
-		c26CrashCase(c, f, cfgs, points[i/2], i%2 == 1, dpool, w, &refused, &resubmitted, &attempts)
+	c.ParallelN(nm*len(points), "crash cases", func(w, i int) {
+		c26CrashCase(c, f, cfgs, points[i/nm], i%nm, dpool, w, &st)
 	})
 	dpool.closeAll()
 	_ = os.RemoveAll(dpool.base)
 	fmt.Printf("C26-TIMING crash %v\n", time.Since(tc))
-	c.Set("crash_commits_refused", refused.Load())
-	c.Set("crash_restarts_resubmitting_a_recorded_set", resubmitted.Load())
+	c.Set("crash_commits_refused", st.refused.Load())
+	c.Set("crash_restarts_resubmitting_a_recorded_set", st.resubmitted.Load())
+	c.Set("crash_calls_found_to_be_one_transaction", st.singleCommit.Load())
+	c.Set("crash_calls_split_over_transactions", st.splitCommit.Load())
 	if !c.Expired("crash cases") {
-		c.Require(refused.Load() > 0 && refused.Load() == attempts.Load(), "commit hook refused %d commits in %d attempts", refused.Load(), attempts.Load())
-		c.Require(resubmitted.Load() > int64(len(ccfgs)), "restart never resubmitted an already recorded round")
+		c.Require(st.refused.Load() > 0 && st.refused.Load() == st.attempts.Load(), "commit hook refused %d commits in %d attempts", st.refused.Load(), st.attempts.Load())
+		c.Require(st.singleCommit.Load()+st.splitCommit.Load() == st.attempts.Load(), "crash-inside-a-call cases %d+%d do not cover the %d committing calls", st.singleCommit.Load(), st.splitCommit.Load(), st.attempts.Load())
+		c.Require(st.resubmitted.Load() > int64(len(ccfgs)), "restart never resubmitted an already recorded round")
 		c.Require(c.OutcomeCount("restart:repeat") > 0 && c.OutcomeCount("restart:grow") > 0 && c.OutcomeCount("restart:advance") > 0, "restart classes not reached")
 	}
 }
